@@ -453,6 +453,7 @@ class _FReq:
         self._ap, self._accept = accept_present, accept
         self.method, self.path = "POST", "/vgi/echo"
         self.remote_addr, self.user_agent, self.cookies = "192.0.2.1", "harness", {}
+        self.content_type = "application/vnd.apache.arrow.stream"  # an RPC request (the serializer looks at it)
         self.context = _Ns()
 
     def get_header(self, name: str, default=None):  # type: ignore[no-untyped-def]
